@@ -12,8 +12,10 @@ import ast
 
 VIEW_METHODS = {"reshape", "squeeze", "ravel", "view", "transpose", "swapaxes"}
 VIEW_ATTRS = {"T", "real", "flat"}
-VIEW_FUNCS = {"asarray", "atleast_1d", "atleast_2d", "asanyarray", "ascontiguousarray", "squeeze",
-              "reshape", "ravel", "transpose", "expand_dims", "broadcast_to"}
+VIEW_FUNCS = {"asarray", "atleast_1d", "atleast_2d", "atleast_3d", "asanyarray", "ascontiguousarray", "asfortranarray",
+              "asarray_chkfinite", "require", "squeeze", "reshape", "ravel", "transpose", "expand_dims", "broadcast_to",
+              "swapaxes", "moveaxis", "rollaxis", "diagonal", "real", "imag", "flip", "flipud", "fliplr", "rot90", "split",
+              "array_split", "hsplit", "vsplit", "nditer", "as_strided", "sliding_window_view"}
 COPY_METHODS = {"copy", "astype", "flatten", "tolist", "sum", "mean", "std", "max", "min", "argsort",
                 "argmax", "argmin", "cumsum", "dot", "all", "any", "nonzero", "clip"}
 MUTATORS = {"sort", "resize", "fill", "put", "itemset", "partition", "setfield", "byteswap", "shuffle"}
@@ -421,3 +423,130 @@ def param_mutations(own: Ownership, ci, fn, mi=None):
         for line, text in hits:
             out.append((params[i] if i < len(params) else f"#{i}", line, text))
     return out
+
+
+# ------------------------------------------------------------------------------------------------ stored-state sinks
+LIST_MUTATORS = {"append", "extend", "insert", "pop", "remove", "clear", "reverse", "sort", "update", "setdefault", "popitem",
+                 "resize", "fill", "put", "itemset", "partition", "byteswap", "setfield", "add", "discard"}
+ARG_MUTATOR_FUNCS = {"shuffle", "put", "place", "copyto", "fill_diagonal", "putmask", "put_along_axis"}
+
+
+def _state_path(e, alias):
+    """Access path of the stored object `e` may name, rooted at an object in `alias` (a receiver / parameter or something
+    reached from one): views, slices and element selections keep the path, anything else (calls that copy, arithmetic)
+    loses it.  Returns a set of path strings like `self.sample` or `priors[].variables`."""
+    if isinstance(e, ast.Name):
+        return set(alias.get(e.id, ()))
+    if isinstance(e, ast.Attribute):
+        if e.attr in VIEW_ATTRS:
+            return _state_path(e.value, alias)
+        return {f"{b}.{e.attr}" for b in _state_path(e.value, alias)}
+    if isinstance(e, ast.Subscript):
+        base = _state_path(e.value, alias)
+        if isinstance(e.slice, ast.Slice) or (isinstance(e.slice, ast.Tuple) and any(isinstance(x, ast.Slice) for x in e.slice.elts)):
+            return base                                  # a slice of an array / list view... (list slices copy: see below)
+        return {b if b.endswith("[]") else b + "[]" for b in base}
+    if isinstance(e, ast.IfExp):
+        return _state_path(e.body, alias) | _state_path(e.orelse, alias)
+    if isinstance(e, ast.BoolOp):
+        out = set()
+        for v in e.values:
+            out |= _state_path(v, alias)
+        return out
+    if isinstance(e, ast.Call):
+        f = e.func
+        nm = f.attr if isinstance(f, ast.Attribute) else f.id if isinstance(f, ast.Name) else None
+        if isinstance(f, ast.Attribute) and nm in VIEW_METHODS:
+            return _state_path(f.value, alias)
+        if nm in VIEW_FUNCS | {"asfortranarray", "asarray_chkfinite", "atleast_3d", "require"} and e.args \
+                and not (isinstance(f, ast.Attribute) and not isinstance(f.value, ast.Name)):
+            return _state_path(e.args[0], alias)
+        if nm == "array" and e.args and any(k.arg == "copy" and isinstance(k.value, ast.Constant) and k.value.value is False for k in e.keywords):
+            return _state_path(e.args[0], alias)
+    return set()
+
+
+def state_sinks(fn, roots, own_roots=("self",)):
+    """In-place updates, inside `fn`, of objects stored in (or reached from) the objects named in `roots` (name -> label), directly
+    or through local aliases: [(path, lineno, text)].  Paths are like `self.sample`, `priors[].variables`.
+    Flow-insensitive over aliases (a name that ever aliased a stored object counts), which is the safe direction."""
+    alias = {n: {lab} for n, lab in roots.items()}
+    changed = True
+    while changed:
+        changed = False
+        for st in ast.walk(fn):
+            pairs = []
+            if isinstance(st, ast.Assign):
+                for t in st.targets:
+                    if isinstance(t, ast.Name):
+                        pairs.append((t.id, _state_path(st.value, alias)))
+                    elif isinstance(t, (ast.Tuple, ast.List)) and isinstance(st.value, (ast.Tuple, ast.List)) and len(t.elts) == len(st.value.elts):
+                        for a, b in zip(t.elts, st.value.elts):
+                            if isinstance(a, ast.Name):
+                                pairs.append((a.id, _state_path(b, alias)))
+            elif isinstance(st, ast.AnnAssign) and st.value is not None and isinstance(st.target, ast.Name):
+                pairs.append((st.target.id, _state_path(st.value, alias)))
+            elif isinstance(st, ast.NamedExpr) and isinstance(st.target, ast.Name):
+                pairs.append((st.target.id, _state_path(st.value, alias)))
+            elif isinstance(st, (ast.For, ast.comprehension)):
+                it = st.iter
+                # zip / enumerate / reversed / sorted(copy) - element objects of the iterated containers
+                srcs = [it]
+                if isinstance(it, ast.Call) and isinstance(it.func, ast.Name) and it.func.id in ("zip", "enumerate", "reversed", "sorted", "list", "tuple", "iter"):
+                    srcs = list(it.args)
+                tg = st.target
+                tgs = tg.elts if isinstance(tg, (ast.Tuple, ast.List)) else [tg]
+                if isinstance(it, ast.Call) and isinstance(it.func, ast.Name) and it.func.id == "enumerate":
+                    tgs = tgs[1:] if len(tgs) > 1 else []
+                if len(srcs) == len(tgs) or len(srcs) == 1:
+                    for k, x in enumerate(tgs):
+                        src = srcs[k] if len(srcs) == len(tgs) else srcs[0]
+                        if isinstance(x, ast.Name):
+                            pairs.append((x.id, {b if b.endswith("[]") else b + "[]" for b in _state_path(src, alias)}))
+            for name, paths in pairs:
+                if name in roots:
+                    continue
+                if paths - alias.get(name, set()):
+                    alias.setdefault(name, set()).update(paths)
+                    changed = True
+    out = []
+
+    def hit(e, st, why):
+        for p_ in sorted(_state_path(e, alias)):
+            if p_ not in roots.values():
+                out.append((p_, st.lineno, ast.unparse(st)[:160]))
+    for st in ast.walk(fn):
+        if isinstance(st, ast.AugAssign):
+            t = st.target
+            if isinstance(t, ast.Subscript):
+                hit(t.value, st, "item update")
+            elif isinstance(t, ast.Name):
+                hit(t, st, "in-place operator")
+        elif isinstance(st, ast.Assign):
+            for t in st.targets:
+                for x in (t.elts if isinstance(t, (ast.Tuple, ast.List)) else [t]):
+                    if isinstance(x, ast.Subscript) and (not isinstance(x.value, ast.Attribute) or not any(
+                            p_.split(".")[0].split("[")[0] in own_roots for p_ in _state_path(x.value, alias))):
+                        hit(x.value, st, "item store")
+        elif isinstance(st, ast.Delete):
+            for t in st.targets:
+                if isinstance(t, ast.Subscript) and not isinstance(t.value, ast.Attribute):
+                    hit(t.value, st, "item delete")
+        elif isinstance(st, ast.Expr) and isinstance(st.value, ast.Call) or isinstance(st, ast.Call):
+            call = st.value if isinstance(st, ast.Expr) else st
+            f = call.func
+            owner = st if isinstance(st, ast.Expr) else None
+            if owner is None:
+                continue
+            if isinstance(f, ast.Attribute) and f.attr in LIST_MUTATORS:
+                if isinstance(f.value, ast.Name) or not any(p_.split(".")[0].split("[")[0] in own_roots for p_ in _state_path(f.value, alias)):
+                    hit(f.value, owner, "mutating method")
+            nm = f.attr if isinstance(f, ast.Attribute) else f.id if isinstance(f, ast.Name) else None
+            if nm in ARG_MUTATOR_FUNCS and call.args:
+                hit(call.args[0], owner, "mutating function")
+            for k in call.keywords:
+                if k.arg == "out":
+                    hit(k.value, owner, "out= argument")
+    # only updates reached through a local alias or an element are reported here: a direct `self.x[...] = v` / `self.x.sort()` is
+    # the class managing its own attribute, which the caller of this helper may or may not want - so report those separately
+    return sorted(set(out))
